@@ -1,7 +1,7 @@
 # C13 - input framing ignores packet boundaries and survives any byte stream.
 # Engine W-loop: real get_user_data()/copy_chars()/telnet_neg()/command extraction under scripted recv() segmentation.
 import re, hashlib
-from ..core import Plan, Violation, generic_crash_violations, enc, dec
+from ..core import Plan, Violation, generic_crash_violations, spin_violations, enc, dec
 from ..world import *
 
 PROP = 'C13'
@@ -187,6 +187,7 @@ def gen(rng, tier, i):
 def check(plan, res):
     v = generic_crash_violations(PROP, res)
     if v: return v
+    v += spin_violations(PROP, res)
     o = plan.opts()
     cls = o.get('c13_class', 'strict'); kind = o.get('c13_kind', 'telnet')
     # bounded buffering
